@@ -38,6 +38,15 @@ def stmAvoids (n : Sig) : Stm → Bool
 def Unused (n : String) (k : Nat) (prg : Prog) : Prop :=
   ∀ s ∈ prg, defRule n k s = true ∨ stmAvoids (predSig n k) s = true
 
+/-- the executable form of `Unused` (what the driver evaluates on the programs the real pass removed rules from) -/
+def unusedCheck (n : String) (k : Nat) (prg : Prog) : Bool :=
+  prg.all fun s => defRule n k s || stmAvoids (predSig n k) s
+
+theorem unusedCheck_sound (n : String) (k : Nat) (prg : Prog) (h : unusedCheck n k prg = true) : Unused n k prg := by
+  intro s hs
+  simp only [unusedCheck, List.all_eq_true, Bool.or_eq_true] at h
+  exact h s hs
+
 def keep (n : String) (k : Nat) (prg : Prog) : Prog := prg.filter fun s => !defRule n k s
 
 /-- what the deleted rules say about the atom `a`, at `(H,T)` -/
